@@ -26,11 +26,13 @@ import (
 
 	"github.com/tonistiigi/fsutil"
 	"github.com/tonistiigi/fsutil/types"
+	"golang.org/x/sys/unix"
 )
 
 func init() {
 	kinds[0x0901] = run0901
 	kinds[0x0902] = run0902
+	kinds[0x0903] = run0903
 	props["C09"] = genC09
 }
 
@@ -192,6 +194,56 @@ func run0902(in Sx) Sx {
 	})
 }
 
+// run0903: two views on two separate tmpfs mounts below one root (inode numbers collide across
+// devices).  Snapshot entries carry st_dev as a 13th field.  (#fffc msg) if mounting is refused.
+func run0903(in Sx) Sx {
+	return guarded(func() Sx {
+		dir := WorkDir("c09m-")
+		defer os.RemoveAll(dir)
+		root := filepath.Join(dir, "r")
+		var mounted []string
+		defer func() {
+			for _, m := range mounted {
+				unix.Unmount(m, unix.MNT_DETACH)
+			}
+		}()
+		for i, name := range []string{"m1", "m2"} {
+			mp := filepath.Join(root, name)
+			if err := os.MkdirAll(mp, 0755); err != nil {
+				return harnessErr(err)
+			}
+			if err := unix.Mount("none", mp, "tmpfs", 0, ""); err != nil {
+				return L(N(0xfffc), S("mount: "+err.Error()))
+			}
+			mounted = append(mounted, mp)
+			if err := Materialize(SxView(in.L[i]), mp); err != nil {
+				return harnessErr(err)
+			}
+		}
+		raw, err := SnapshotRaw(root, false)
+		if err != nil {
+			return harnessErr(err)
+		}
+		snap := make([]Sx, len(raw))
+		for i, e := range raw {
+			var st unix.Stat_t
+			if err := unix.Lstat(filepath.Join(root, e.Path), &st); err != nil {
+				return harnessErr(err)
+			}
+			x := e.Sx()
+			x.L = append(x.L, N(uint64(st.Dev)))
+			snap[i] = x
+		}
+		f, err := fsutil.NewFS(root)
+		if err != nil {
+			return harnessErr(err)
+		}
+		rec := &c09rec{}
+		werr := f.Walk(context.Background(), in.L[2].Str(), rec.dirFn)
+		return L(L(snap...), L(rec.cbs...), errCode(werr))
+	})
+}
+
 // ---------------------------------------------------------------- generator
 
 // names around a base x: x and x<c>y with c below and above '/', so that the bytewise
@@ -212,6 +264,76 @@ func c09Names(r *Rng) []string {
 	// a few unrelated ones, among them exactly 255 bytes
 	names = append(names, "b", "c", ".a", "...", strings.Repeat("n", 255), strings.Repeat("é", 127), "日本", "\x01")
 	return names
+}
+
+
+func c09File(name string, content string) *MNode {
+	return &MNode{Name: name, Content: []byte(content), Stat: &types.Stat{Mode: 0644, Size: int64(len(content)), ModTime: 1700000000000000001}}
+}
+func c09Dir(name string, kids ...*MNode) *MNode {
+	n := &MNode{Name: name, Kids: kids, Stat: &types.Stat{Mode: uint32(os.ModeDir | 0755), ModTime: 1700000000000000002}}
+	sortKids(n)
+	return n
+}
+func c09Sym(name, target string) *MNode {
+	return &MNode{Name: name, Stat: &types.Stat{Mode: uint32(os.ModeSymlink | 0777), Linkname: target, Size: int64(len(target)), ModTime: 1700000000000000003}}
+}
+func c09Special(name string, mode os.FileMode, major, minor int64) *MNode {
+	return &MNode{Name: name, Stat: &types.Stat{Mode: uint32(mode), Devmajor: major, Devminor: minor, ModTime: 1700000000000000004}}
+}
+
+func c09AddKid(kids []*MNode, n *MNode) []*MNode {
+	for _, k := range kids {
+		if k.Name == n.Name {
+			return kids
+		}
+	}
+	kids = append(kids, n)
+	sort.Slice(kids, func(a, b int) bool { return kids[a].Name < kids[b].Name })
+	return kids
+}
+
+// c09Inject adds, in a random directory, a directory x with a child and siblings x<c>... with c
+// below and above '/' (the order distinction the property is about).
+func c09Inject(r *Rng, view []*MNode) []*MNode {
+	x := Pick(r, []string{"a", "x", "é", "a.", "q q", strings.Repeat("k", 250)})
+	lo := Pick(r, []string{"\x01", " ", "!", "-", ".", ","})
+	hi := Pick(r, []string{"0", "A", "a", "~", "\x80", "\xff"})
+	cluster := []*MNode{
+		c09Dir(x, c09File(Pick(r, []string{"x", "0", "-", "\x01"}), "c")),
+		c09File(x+lo, "lo"),
+		c09File(x+hi, "hi"),
+	}
+	if r.Chance(50) {
+		cluster = append(cluster, c09Dir(x+lo+"d", c09File("y", "")))
+	}
+	var dirs []*MNode
+	for _, f := range c09Flatten(view) {
+		if f.n.IsDir() {
+			dirs = append(dirs, f.n)
+		}
+	}
+	if len(dirs) > 0 && r.Chance(60) {
+		d := Pick(r, dirs)
+		for _, c := range cluster {
+			d.Kids = c09AddKid(d.Kids, c)
+		}
+		return view
+	}
+	for _, c := range cluster {
+		view = c09AddKid(view, c)
+	}
+	return view
+}
+
+// c09Chain adds a chain of directories 8..14 deep ending in a file.
+func c09Chain(r *Rng, view []*MNode) []*MNode {
+	depth := 8 + r.Intn(7)
+	var cur *MNode = c09File("leaf", "deep")
+	for i := 0; i < depth; i++ {
+		cur = c09Dir(Pick(r, []string{"d", "d-", "d d", "\x01", "é"}), cur, c09File("d-"+string(rune('a'+i)), ""))
+	}
+	return c09AddKid(view, cur)
 }
 
 type c09flat struct {
@@ -253,20 +375,24 @@ func c09View(r *Rng, big bool) ([]*MNode, Sx, string) {
 		o.MaxDepth = 1 + r.Intn(2)
 	}
 	view := GenView(r, o)
+	if r.Chance(70) {
+		view = c09Inject(r, view)
+		cls += "+cl"
+	}
+	if r.Chance(8) {
+		view = c09Chain(r, view)
+		cls += "+deep"
+	}
 	flat := c09Flatten(view)
 	for _, f := range flat {
 		st := f.n.Stat
 		m := os.FileMode(st.Mode)
-		// user.* xattrs are refused by the kernel on special files: use trusted.* there (root only)
-		if m&(os.ModeNamedPipe|os.ModeDevice|os.ModeSocket) != 0 && st.Xattrs != nil {
-			nx := map[string][]byte{}
-			for k, v := range st.Xattrs {
-				nx["trusted."+strings.TrimPrefix(k, "user.")] = v
+		// user.* xattrs are refused by the kernel on special files and symlinks: trusted.* works (root)
+		if m&(os.ModeNamedPipe|os.ModeDevice|os.ModeSocket|os.ModeSymlink) != 0 && r.Chance(15) {
+			st.Xattrs = map[string][]byte{"trusted.s": fillContent(r, r.Intn(4))}
+			if r.Chance(30) {
+				st.Xattrs["trusted.a"] = []byte{}
 			}
-			st.Xattrs = nx
-		}
-		if m&os.ModeSymlink != 0 && r.Chance(15) {
-			st.Xattrs = map[string][]byte{"trusted.l": []byte("v")}
 		}
 		if m&os.ModeNamedPipe != 0 && r.Chance(40) {
 			st.Mode = uint32(os.ModeSocket) | (st.Mode & 0777)
@@ -321,6 +447,96 @@ func c09View(r *Rng, big bool) ([]*MNode, Sx, string) {
 		}
 	}
 	return view, L(extras...), cls
+}
+
+
+type c09case struct {
+	kind uint64
+	in   Sx
+	note string
+}
+
+func c09Classic() []*MNode {
+	x := c09File("x", "data")
+	hl := c09File("a-b", "data")
+	hl.Stat = x.Stat.CloneVT()
+	hl.Stat.Linkname = "a/x"
+	return []*MNode{c09Dir("a", x, c09Sym("y", "/t")), c09File("a b", "1"), hl, c09File("a.b", ""), c09File("a0", "22"), c09Dir("a!")}
+}
+
+// c09Directed: hand-written cases aimed at the distinctions of the property (also dumped to corpus/C09).
+func c09Directed() []c09case {
+	var out []c09case
+	add := func(kind uint64, in Sx, note string) { out = append(out, c09case{kind, in, note}) }
+	classic := ViewSx(c09Classic())
+	for api := 0; api < 4; api++ {
+		add(0x0901, L(classic, L(), S(""), NI(api)), fmt.Sprintf("a, a/x, a/y, a!, 'a b', a-b (hard link to a/x), a.b, a0 through entry point %d", api))
+	}
+	add(0x0901, L(L(), L(), S(""), NI(0)), "empty root")
+	add(0x0901, L(L(), L(), S(""), NI(1)), "empty root, WalkDir")
+	for _, t := range []string{"a", "a/x", "a-b", "./a/", "/a", "missing", "a/x/y", "a/missing", "nx/../a b"} {
+		add(0x0901, L(classic, L(), S(t), NI(0)), "sub-target "+t+" (a-b alone: its first link is outside the walked set)")
+	}
+	special := []*MNode{
+		c09Dir("d", c09File("f", "x")),
+		c09Special("p", os.ModeNamedPipe|0640, 0, 0),
+		c09Special("s", os.ModeSocket|0755, 0, 0),
+		c09Special("c", os.ModeDevice|os.ModeCharDevice|0600, 4095, 1048575),
+		c09Special("b", os.ModeDevice|0660, 7, 256),
+		c09Special("cs", os.ModeDevice|os.ModeCharDevice|os.ModeSetuid|os.ModeSetgid|0600, 1, 3),
+		c09Sym("l", "p"),
+	}
+	extras := L(L(S("p"), S("d/p2")), L(S("l"), S("!l2")), L(S("c"), S("d/c2")), L(S("s"), S("zs")), L(S("d/f"), S("!f")))
+	add(0x0901, L(ViewSx(special), extras, S(""), NI(0)), "fifo/socket/devices/symlink each with a second hard link; d/f first created, !f first in walk order")
+	add(0x0901, L(ViewSx(special), extras, S("d"), NI(0)), "same, sub-target d")
+	n255 := strings.Repeat("n", 255)
+	n254 := strings.Repeat("n", 254)
+	long := []*MNode{c09Dir(n255, c09Dir(n255, c09File(n255, "z"))), c09File(n254, ""), c09File(n254+"-", ""), c09File(n254+"\x01", ""), c09File(n254+"~", "")}
+	add(0x0901, L(ViewSx(long), L(), S(""), NI(0)), "255-byte names, nested, with 254+c siblings")
+	add(0x0901, L(ViewSx(long), L(), S(n255+"/"+n255), NI(0)), "255-byte names, sub-target")
+	bits := []*MNode{c09Dir("t"), c09File("u", ""), c09File("g", ""), c09File("z", "")}
+	bits[0].Stat.Mode = uint32(os.ModeDir | os.ModeSticky | 0777)
+	bits[1].Stat.Mode = uint32(os.ModeSetuid | 0755)
+	bits[2].Stat.Mode = uint32(os.ModeSetgid | 0711)
+	bits[3].Stat.Mode = 0
+	bits[1].Stat.Uid, bits[1].Stat.Gid = 65534, 1000
+	bits[3].Stat.ModTime = -1
+	bits[2].Stat.Xattrs = map[string][]byte{"user.a": []byte("1"), "user.b": {}, "trusted.c": {0, 255}}
+	add(0x0901, L(ViewSx(bits), L(), S(""), NI(3)), "sticky dir, setuid/setgid files, mode 0, owner, negative mtime, xattrs")
+	dst := func(name string) Sx {
+		return StatSx(&types.Stat{Path: name, Mode: uint32(os.ModeDir | 0755), ModTime: 1700000000000000009, Uid: 1})
+	}
+	abs := append(c09Classic(), c09Sym("abs", "/a/../x/"), c09Sym("rel", "../x"), c09Sym("root", "/"))
+	sortKidsList(abs)
+	add(0x0902, L(L(L(dst("s"), classic, L()), L(dst("r"), ViewSx(abs), L())), S("")), "two sub-roots, r before s; hard-link and absolute symlink names prefixed")
+	add(0x0902, L(L(L(dst("a-b"), classic, L()), L(dst("a"), classic, L()), L(dst("a b"), L(), L())), S("")), "sub-roots a, 'a b', a-b: a/... before 'a b'")
+	add(0x0902, L(L(L(dst("s"), classic, L()), L(dst("r"), ViewSx(abs), L())), S("r/a")), "composite, target r/a")
+	add(0x0902, L(L(L(dst("s"), classic, L()), L(dst("s"), classic, L())), S("")), "duplicate sub-root name")
+	add(0x0902, L(L(L(dst("s/t"), classic, L())), S("")), "sub-root name with separator")
+	return out
+}
+
+func sortKidsList(l []*MNode) {
+	sort.Slice(l, func(a, b int) bool { return l[a].Name < l[b].Name })
+}
+
+func init() {
+	internals["c09corpus"] = func(args []string) {
+		fmt.Println("// C09 directed cases (generated by `vh internal c09corpus`; also run first by the generator)")
+		for _, c := range c09Directed() {
+			fmt.Printf("// %s\n%x\t%s\n", c.note, c.kind, c.in.String())
+		}
+	}
+	internals["c09witness"] = func(args []string) {
+		g := c09File("g", "data-m?")
+		f := c09File("f", "data-m?")
+		g.Stat = f.Stat.CloneVT()
+		g.Stat.Linkname = "f"
+		v := ViewSx([]*MNode{f, g})
+		fmt.Printf("%x\t%s\n", 0x0903, L(v, v, S("")).String())
+		h := c09File("h", "other")
+		fmt.Printf("%x\t%s\n", 0x0903, L(v, ViewSx([]*MNode{h}), S("")).String())
+	}
 }
 
 func c09Nontrivial(view []*MNode) bool {
@@ -394,6 +610,9 @@ func c09Target(r *Rng, view []*MNode) (string, string) {
 
 func genC09(g *Gen) {
 	r := g.Rng
+	for _, c := range c09Directed() {
+		g.Emit(c.kind, c.in, true, "directed")
+	}
 	// (a) whole-tree walks through the four entry points, and sub-target walks
 	n := g.Vol(300, 5000)
 	for i := 0; i < n; i++ {
